@@ -52,10 +52,6 @@ impl Arena {
         }
     }
 
-    pub fn capacity(&self) -> usize {
-        self.size
-    }
-
     pub fn end(&self) -> *mut u8 {
         // SAFETY: within the mapping
         unsafe { self.rw.add(self.size) }
